@@ -21,8 +21,10 @@ NOTICE_START = re.compile(r"(SPDX-(File|Snippet)CopyrightText:|Copyright|©)\s")
 
 
 def wf_holder(h: str) -> bool:
-    """The holders the property quantifies over (independent Python statement; Lean's WFHolder is the narrower
-    'no Copyright / © inside at all').  A holder that merely *begins like* a tag glued to more letters
+    """The holders the property quantifies over (independent Python statement; Lean's older WFHolder is narrower, the
+    Spec.WFHolderL && Spec.noNoticeInside of C20_make_parse is this predicate except that it admits line breaks other than LF
+    and trailing white space other than blank / tab — the stream `theoremfull` checks on every case that this predicate implies
+    the Lean one).  A holder that merely *begins like* a tag glued to more letters
     ('Copyrighted Works Ltd.', '©tudio', '(C)ompany', 'SPDX-FileCopyrightTextual') or that carries the word
     where no white space follows ('Acme Copyright') is a holder like any other."""
     if not h or h != h.strip() or any(c in h for c in SPLITLINES_BREAKS):
@@ -32,6 +34,8 @@ def wf_holder(h: str) -> bool:
     if re.match(r"\([Cc]\)\s", h):                 # '(C) Holder' would extend the prefix
         return False
     if re.match(r"\d", h[0]):                      # would be read as the year
+        return False
+    if re.match(r"- ?\d{4},?\s", h):               # '-2020 Holder' after a single year would be read as the end of a range
         return False
     return end_suffix_free(h)
 
@@ -168,6 +172,47 @@ class TheoremStream(Stream):
 
     def oracle(self, case, impl_out):
         return None
+
+
+class TheoremFullStream(TheoremStream):
+    """Ties C20_make_parse / C20_make_then_parse (no per-case hypothesis) to the implementation.  The driver evaluates the
+    *syntactic* hypotheses (year form, Spec.WFHolderL, Spec.noNoticeInside); where they hold the real make_copyright_line +
+    reader must return exactly (prefix, year, holder).  Also checked on every case: the Python statement of the holder
+    domain (wf_holder) implies the Lean hypotheses, and the hypotheses of the older C20_make_parse_partial imply them."""
+    name = "theoremfull"
+    exhaustive = True
+    rule = ("for every (holder, year form, prefix) of the makeparse grid extended by holders at the edges of the predicates ('-Free', "
+            "'-2020 Jane', '(c) Jane', '(c)Jane', tags at the end, tags glued, inner tags followed by tab / no-break space) the compiled "
+            "driver evaluates the hypotheses of C20_make_parse (year form well-formed, Spec.WFHolderL on the generated END pattern, "
+            "Spec.noNoticeInside); where they hold the implementation must read back exactly that prefix, year and holder; wf_holder "
+            "(Python) => Lean hypotheses; hypotheses of C20_make_parse_partial => Lean hypotheses; non-trivial = hypotheses hold")
+    EDGE = ["-Free Software Ltd", "-2020 Jane", "- 2020, Jane", "-2020Jane", "-", "(c) Jane", "(c)Jane", "(C)", "(", "Jane (C) Doe",
+            "Jane Copyright", "Jane Copyright\tDoe", "Jane ©\u00a0Doe", "Jane SPDX-FileCopyrightText: Doe", "Jane SPDX-FileCopyrightText:Doe",
+            "Jane SPDX-SnippetCopyrightText: Doe", "x Copyright(c) y", "Copyright(C) y", "Jane Doe\u00a0", "Jane\rDoe", "©",
+            "Copyright\u3000Ideographic", "٢٠٢٠ Arabic-Indic", "Jane 2020-2021 Doe", "*/ Jane", "Jane -->x"]
+
+    def cases(self, tier, rng):
+        from reuse.copyright import _COPYRIGHT_PREFIXES
+        for h in MakeParseStream.HOLD + self.EDGE:
+            for y in YEARS:
+                for p in _COPYRIGHT_PREFIXES:
+                    yield {"h": h, "y": y, "p": p}
+
+    def model_lines(self, case):
+        return [TheoremStream.model_lines(self, case)[0].replace("c20hyp", "c20wf", 1)]
+
+    def agree(self, case, impl_out, model_out):
+        hyp, old, wfl, nn, line = model_out.split("|")
+        ok, iline = impl_out.split("|")
+        if wf_holder(case["h"]) and hyp != "1":
+            return False              # the Lean predicate must cover the domain the property is stated over
+        if old == "1" and hyp != "1":
+            return False              # C20_wf_narrower / C20_earlier_none: the new theorem subsumes the old one
+        if hyp != "1":
+            return True               # the theorem says nothing here
+        self._hyp = getattr(self, "_hyp", set())
+        self._hyp.add((case["h"], case["y"], case["p"]))
+        return ok == "ok" and (iline == line)
 
 
 class MergeOracleStream(Stream):
@@ -567,7 +612,7 @@ class YearOptionStream(Stream):
 
 PROPERTY = Property(
     pid="C20",
-    streams=[textcorr.CSearchStream(), MakeParseStream(), TheoremStream(), textcorr.MergeStream(), MergeOracleStream(), MergeCoverageStream(), HeaderMergeStream(), YearOptionStream()] + pystr.DIGIT_STREAMS,
+    streams=[textcorr.CSearchStream(), MakeParseStream(), TheoremStream(), TheoremFullStream(), textcorr.MergeStream(), MergeOracleStream(), MergeCoverageStream(), HeaderMergeStream(), YearOptionStream()] + pystr.DIGIT_STREAMS,
     assumptions=[
         "CPython's re engine on the three copyright patterns is mirrored by Model.searchLine (prefix extension candidates in backtracking "
         "priority, greedy white space, year alternatives, lazy statement up to END) and compared on every run; END is generated from the source",
